@@ -215,7 +215,7 @@ def build_h2():
 
 
 def specs(tier):
-    return [Spec("h1_facade", build_h1(), cfg=cfg(), unwind=3, timeout=600,
+    return [Spec("h1_facade", build_h1(), cfg=cfg(), unwind=3, timeout=1800,
                  desc="real ParallelPrecompileState facade methods; revm's EvmInternals is a counting ghost", bounds={"methods": 4}),
-            Spec("h2_attempt_lifecycle", build_h2(), cfg=exec_cfg(), unwind=3, timeout=600,
+            Spec("h2_attempt_lifecycle", build_h2(), cfg=exec_cfg(), unwind=3, timeout=1800,
                  desc="real GrevmExecutor::execute_incarnation call discipline with revm's Evm / handler / IncarnationDb as recording ghosts", bounds={})]
